@@ -324,7 +324,7 @@ def part_a(tier, i, n, seed, R):
             if (idx + seed) % n != i:
                 continue
             guarded(R, lambda: one_input(name, T, data, tier, R, idx, tmpdir, old),
-                    {'name': name, 'T': T, 'len': len(data)}, {'a'}, idx)
+                    {'name': name, 'T': T, 'len': len(data)}, {'a'}, idx, cpu_limit=180)
     finally:
         io.DEFAULT_BUFFER_SIZE = old
         shutil.rmtree(tmpdir, ignore_errors=True)
